@@ -25,7 +25,7 @@ func init() {
 func runReader(tb ev.TB, c rsim.Case) (labels []string, cuts int) {
 	res := rsim.Run(c)
 	fail := func(sig, format string, args ...any) {
-		ev.Fail(tb, "reader", sig, c, format+"\nfetch journal:\n%s", append(args, res.Describe())...)
+		reportFail(tb, "reader", sig, c, format+"\nfetch journal:\n%s", append(args, res.Describe())...)
 	}
 	if res.Failure != nil {
 		fail("c17/reader/"+res.Failure.Sig, "%s", res.Failure.Msg)
@@ -187,7 +187,7 @@ func runWriter(tb ev.TB, c wsim.Case) (labels []string, cuts int) {
 		if len(s) > 5000 {
 			s = s[:5000] + "…"
 		}
-		ev.Fail(tb, "writer", sig, c, format+"\n%s", append(args, s)...)
+		reportFail(tb, "writer", sig, c, format+"\n%s", append(args, s)...)
 	}
 	if res.CloseHung {
 		ev.Inconclusive("writer_close_hung") // C09 owns liveness of Close
